@@ -8,7 +8,7 @@ item = `0 id | 1 id | 2 kind <glue> | 3 kind w | 4 p | 5 <n> <elems> <n> <elems>
 list = `<n> <items>`; params = `<glue left> <glue right> interline club widow broken <n> widths <n> indents`;
 line = `<list> width indent haspen pen`.
 
-* `plb <params> <list> <n> breaks`                 → `ok <n> <lines>` | `err <code>`
+* `plb <params> <list> <n> breaks`                 → `ok <n> <lines>` | `err <code>` (`ok!` = the spec rejects the model's own lines)
 * `spec <params> <list> <n> breaks <n> <lines>`    → `ok` | violated clauses joined by `,`
 * `fin <glue parfill> <list>`                      → `<list>`
 * `bsk <hasinit> init <n> (h d)*`                  → per line `has w`
@@ -186,7 +186,12 @@ def handle (line : String) : String :=
       if c ≠ [] then none else pure (p, l, bs)) with
     | some (p, l, bs) =>
       match postLineBreak p l bs with
-      | .ok lines => "ok " ++ showInts ((lines.length : Int) :: (lines.map encLine).flatten)
+      | .ok lines =>
+        -- sanity (M vs S): the specification evaluated on the model's own lines
+        let ms := if ValidBreaks l bs then
+            specVerdict p l bs (lines.map fun ln => (ln.flat, ln.width, ln.indent, ln.pen)) else []
+        (if ms.isEmpty then "ok " else "ok! ") ++
+          showInts ((lines.length : Int) :: (lines.map encLine).flatten)
       | .error e => s!"err {encErr e}"
     | none => "bad-request"
   | "spec" :: ws =>
